@@ -2,10 +2,13 @@
 # tools/runall.sh <tier> [ids...] : run checks sequentially, print one summary line each
 tier=${1:-quick}; shift
 ids=${@:-C01 C02 C03 C04 C05 C06 C07 C08 C09 C10 C11 C12 C13 C14 C15 C16 C17 C18 C19 C20}
-cd /verif
+ROOT=${VERIF_ROOT:-$(cd "$(dirname "$0")/.." && pwd)}
+cd "$ROOT"
+export VERIF_ROOT=$ROOT
+L=${RUNALL_LOGDIR:-/tmp}
 for id in $ids; do
   s=$(date +%s.%N)
-  ./check $id $tier > /tmp/runall.$id.log 2>&1; rc=$?
+  ./check $id $tier > $L/runall.$id.log 2>&1; rc=$?
   e=$(date +%s.%N)
-  printf "%s rc=%d %.1fs %s\n" $id $rc $(echo "$e - $s" | bc) "$(grep -cE '^VIOLATION' /tmp/runall.$id.log) violations, $(grep -cE '^KNOWN-FINDING' /tmp/runall.$id.log) known, $(grep -cE '^INCONCLUSIVE' /tmp/runall.$id.log) inconclusive; $(grep -E '^\[C' /tmp/runall.$id.log | head -1)"
+  printf "%s rc=%d %.1fs %s\n" $id $rc $(echo "$e - $s" | bc) "$(grep -cE '^VIOLATION' $L/runall.$id.log) violations, $(grep -cE '^KNOWN-FINDING' $L/runall.$id.log) known, $(grep -cE '^INCONCLUSIVE' $L/runall.$id.log) inconclusive; $(grep -E '^\[C' $L/runall.$id.log | head -1)"
 done
